@@ -977,7 +977,7 @@ def check_concat(rep, decls):
                             bad = compare_curves(R, A0, Fraction(0), ONE, tsA)
                         if bad is None and fields(B0)[1]:
                             left = (endA if fields(A0)[1] else fields(A0)[0]) if local else ONE
-                            tsB = sample_times(B0)
+                            tsB = sample_times(B0) + [tB + 1]        # ... and past the end, where the curve rests at end()
                             shifted = [tA + s for s in tsB]
                             for s, sb in zip(shifted, tsB):
                                 rv, rvel, racc = denote(R, s)
@@ -987,6 +987,12 @@ def check_concat(rep, decls):
                                     bad = "at time %s (second curve at %s) the result denotes %s with velocity %s; expected %s with velocity %s" % (
                                         s, sb, rv.show(), show_val(rvel), wv.show(), show_val(wvel))
                                     break
+                        if bad is None and not fields(B0)[1] and fields(A0)[1]:
+                            # an empty right operand is the zero-duration curve resting at its start pose h: afterwards y(t) = h (global) / x1(t1) h (local)
+                            rv, _, _ = denote(R, tA + 1)
+                            wv = (endA if local else ONE).mul(fields(B0)[0])
+                            if rv != wv:
+                                bad = "past its end the result rests at %s; expected %s (the empty right operand rests at its start pose)" % (rv.show(), wv.show())
             rep.instance("M3", "Spline::" + fname, inst, ok=bad is None, sample={})
             if bad:
                 f, l = A.loc(d.node)
@@ -1090,6 +1096,30 @@ def check_ctors(rep, decls):
             if bad:
                 f, l = A.loc(d.node)
                 rep.violation(Finding("M5", "Spline::" + fname, inst, "%s: %s" % (inst, bad), f, l))
+    # ConstantVelocity with a zero duration: x(t) = ga exp(t v) on [0, 0] is the point ga
+    d = method_decl(decls, "ConstantVelocity")
+    if d is not None:
+        for K, T0 in ((3, Fraction(0)), (1, Fraction(0))):
+            inst = "K=%d ConstantVelocity T=%s" % (K, T0)
+            ok, sp = run_guarded(rep, "M5", "Spline::ConstantVelocity", inst, d.node,
+                                 lambda K=K, T0=T0: SplineMachine(decls, K).run_function(d, [Cell(sym("v")), Cell(T0), Cell(ga)], this=None))
+            if not ok:
+                continue
+            bad = None
+            if not isinstance(sp, Obj):
+                bad = "does not return a spline"
+            else:
+                bad = invariant(sp)
+                if bad is None:
+                    for tq in (Fraction(-1), Fraction(0), Fraction(1)):
+                        val, vel, acc = denote(sp, tq)
+                        if val != ga:
+                            bad = "the zero-duration curve is %s at t = %s; x(t) = ga exp(t v) on [0, 0] is the point ga (start() = end() = ga)" % (val.show(), tq)
+                            break
+            rep.instance("M5", "Spline::ConstantVelocity", inst, ok=bad is None, sample={})
+            if bad:
+                f, l = A.loc(d.node)
+                rep.violation(Finding("M5", "Spline::ConstantVelocity", inst, "%s: %s" % (inst, bad), f, l))
     # FixedCubic
     d = method_decl(decls, "FixedCubic")
     if d is None:
